@@ -1,6 +1,6 @@
-// C13 TIFF part B: rgb / rgba / cmyk types
+// C13 TIFF part B: gray16, gray32f and rgb types
 #include "c13_tiff.hpp"
-using Part = mp::mp_list<gil::rgb8_image_t, gil::rgb16_image_t, gil::rgb32f_image_t, gil::rgba8_image_t, gil::rgba16_image_t, gil::cmyk8_image_t, gil::cmyk16_image_t>;
+using Part = mp::mp_list<gil::gray16_image_t, gil::gray32f_image_t, gil::rgb8_image_t, gil::rgb16_image_t, gil::rgb32f_image_t>;
 VH_GROUP(seeds) { tiff_seeds<Part>(ctx); }
 VH_GROUP(samples)
 {
@@ -14,7 +14,7 @@ VH_GROUP(samples)
     int spp = 0, bps = 0;
     try { auto b = gil::read_image_info(path, gil::tiff_tag()); spp = b._info._samples_per_pixel; bps = b._info._bits_per_sample; } catch (...) {}
     if (spp == 3 && bps == 8) { ++ctx.witness["sample_files"]; run_typed<gil::rgb8_image_t>(ctx, sv, o); }
-    else if (spp == 4 && bps == 8) { ++ctx.witness["sample_files"]; run_typed<gil::rgba8_image_t>(ctx, sv, o); }
+    else if (spp == 1 && bps == 16) { ++ctx.witness["sample_files"]; run_typed<gil::gray16_image_t>(ctx, sv, o); }
     else if (spp == 3 && bps == 16) { ++ctx.witness["sample_files"]; run_typed<gil::rgb16_image_t>(ctx, sv, o); }
 }
 VH_MAIN
